@@ -347,7 +347,11 @@ fn model_of(kc: &ExtKeychain, tx: &Transaction, ins: &[In], outs: &[Out], excess
 }
 
 fn cache_path() -> std::path::PathBuf {
-	std::env::temp_dir().join(format!("gv-c12-universe-v1-{}.json", unsafe { libc::getuid() }))
+	// shared only between the worker processes of one run (never across runs: the universe must
+	// be rebuilt from the current tree)
+	let dir = std::env::var("GV_RUN_DIR").unwrap_or_else(|_| format!("{}/run-{}", uni::scratch_base(), std::process::id()));
+	let _ = std::fs::create_dir_all(&dir);
+	std::path::Path::new(&dir).join("c12-universe.json")
 }
 
 fn cache_write(u: &Universe, head: &BlockHeader) {
@@ -1331,7 +1335,7 @@ fn deagg_set(u: &Universe, j: &mut Judge, r: &mut Report, set: &[usize]) -> u64 
 struct TmpDir(std::path::PathBuf);
 impl TmpDir {
 	fn new(tag: &str) -> TmpDir {
-		let p = std::env::temp_dir().join(format!("gv-c12-{}-{}", tag, std::process::id()));
+		let p = std::path::Path::new(&uni::scratch_base()).join(format!("gv-c12-{}-{}", tag, std::process::id()));
 		let _ = std::fs::remove_dir_all(&p);
 		std::fs::create_dir_all(&p).expect("tmp dir");
 		TmpDir(p)
